@@ -44,6 +44,10 @@ def cb_update(item, *sketches, table=None, plan=None, die=None, record_dir=None,
         raise RuntimeError(f"callback refuses item {j}")
     if mode == "bare":
         raise KeyError()  # an exception without any message, before touching the sketches
+    if mode == "oserr":
+        raise FileNotFoundError(2, "No such file or directory")  # args = (int, str)
+    if mode == "intarg":
+        raise KeyError(5)  # a single non-string argument
     for sk in sketches:
         sk.update(item["keys"])
     if mode == "after":
@@ -53,7 +57,7 @@ def cb_update(item, *sketches, table=None, plan=None, die=None, record_dir=None,
 
 def make_items(k, salt=0, width_keys=6):
     """Table of k records; record j adds 1-3 keys of a colliding alphabet with small
-    multiplicities and returns the distinct power of two 2^j.  For k >= 3 the last record
+    multiplicities and returns the distinct power of two 2^j (as int or numpy.int64).  For k >= 3 the last record
     yields NO keys but is still counted (a document whose tokens were all filtered)."""
     items = []
     for j in range(k):
@@ -63,7 +67,8 @@ def make_items(k, salt=0, width_keys=6):
             ks[key] = ks.get(key, 0) + 1 + (j + t) % 3
         if k >= 3 and j == k - 1:
             ks = {}
-        items.append({"id": j, "keys": ks, "ret": 2**j})
+        # every second record reports its count as a numpy integer (e.g. len of an array slice)
+        items.append({"id": j, "keys": ks, "ret": 2**j if j % 2 == 0 else np.int64(2**j)})
     return items
 
 
